@@ -1,3 +1,4 @@
+import numbers
 import flowpaths.stdigraph as stdigraph
 from flowpaths.utils import safetypathcoverscycles
 from flowpaths.utils import solverwrapper as sw
@@ -111,9 +112,9 @@ class AbstractWalkModelDiGraph(ABC):
             raise ValueError(f"The input graph G has no edges. Please provide a graph with at least one edge.")
         self.id = self.G.id
         self.k = k
-        if k <= 0:
-            utils.logger.error(f"{__name__}: k must be positive, got {k}.")
-            raise ValueError(f"k must be positive, got {k}.")
+        if isinstance(k, bool) or not isinstance(k, numbers.Integral) or k <= 0:
+            utils.logger.error(f"{__name__}: k must be a positive integer, got {k}.")
+            raise ValueError(f"k must be a positive integer, got {k}.")
         if max_edge_repetition_dict is None:
             self.edge_upper_bounds = {edge: max_edge_repetition for edge in self.G.edges()}
         else:
